@@ -41,6 +41,13 @@ def check(run):
     A = sites.analysis(prog)
     sn = prog.fn("multidecoder.Multidecoder.scan_node")
 
+    # R6: the stack-drain certificate of scan_node's loops rests on each hit's span being the one its decoder computed for THIS call;
+    # a cached node is shifted in place again at every reuse, its end passes len(data), and the drain loop never exits (seed u01)
+    n6 = common.check_not_memoised(run, "R6-fresh-hits", decs + [fk],
+                                   "every decoder call builds its nodes afresh: the engine shifts hits in place, and the termination argument of the "
+                                   "context-drain loop needs hit.end <= len(data) for the hits of this call")
+    run.floor("R6-fresh-hits", len(decs) + 1)
+
     # ------------------------------------------------------------------ abstract runs: records by AST node
     idx_by, unp_by, div_by, conv_by, none_by = {}, {}, {}, {}, {}
     idx_interp = {}
